@@ -63,7 +63,8 @@ def _roles_global_n(fn):
     from ..util import bound_names
     m = _roles_tables(fn)
     for x in walk_shallow(fn):
-        if isinstance(x, ast.For) and "groupby(" in unparse(x.iter) and isinstance(x.target, ast.Tuple) and len(x.target.elts) == 2:
+        # the counting loops run over the Result's own table (self.interactions); the truncation loop runs over the local, already narrowed table
+        if isinstance(x, ast.For) and "groupby(" in unparse(x.iter) and unparse(x.iter).startswith("self.") and isinstance(x.target, ast.Tuple) and len(x.target.elts) == 2:
             m[unparse(x.target.elts[0])] = "env_idx"
             m[unparse(x.target.elts[1])] = "env_len"
     inv = {v: k for k, v in m.items()}
@@ -136,6 +137,10 @@ def run(ctx):
                         "leave a table that claims to be indexed but is not, and later look-ups by id go wrong")
     c17.in_arm_sorted_distinct(ctx, "C18.R10")
     r11_pairing_not_skipped(ctx)
+    # where_fin / groupby read the interactions through the index ranges: the ranges must be the maximal runs, and a Result must never claim an order its rows do not have
+    ctx.rule("C18.R12", "the run splitter behind groupby and the indexed where (C17.R5: every run ends at the bisect-right of its first value, one definition)")
+    c17.sub_lohis_runs(ctx, "C18.R12")
+    c17.index_then_insert(ctx, "C18.R13")
 
 
 def _table_of(expr):
@@ -297,9 +302,29 @@ def r3_length(ctx):
     drops = [x for x in walk_shallow(gn) if isinstance(x, ast.If) and "env_len" in unparse(x.test) and any("to_drop.append" in unparse(s) for s in x.body)]
     ok = len(drops) == 1 and unparse(drops[0].test) == "env_len < n" and any("to_keep.append" in unparse(s) for s in drops[0].orelse)
     ctx.ob("C18.R3", RES, "Result._global_n", drops[0] if drops else gn, "an evaluation is dropped iff it is shorter than n; otherwise it is kept", ok)
-    tr = [c for c in walk_shallow(gn) if isinstance(c, ast.Call) and call_tail(c) == "where" and any(k.arg == "index" for k in c.keywords)]
-    ok = len(tr) == 1 and unparse(tr[0].keywords[0].value) == "{'<=': shorten_to}"
-    ctx.ob("C18.R3", RES, "Result._global_n", tr[0] if tr else gn, "truncation keeps rows with index <= n (rows are numbered from 1)", ok)
+    # truncation: the first shorten_to ROWS of every evaluation (the lengths are counted in rows; a cut on the VALUE of index is only the same thing when every
+    # evaluation is numbered 1..N, which a where on index or a 0-based index breaks)
+    by_value = [c for c in walk_shallow(gn) if isinstance(c, ast.Call) and call_tail(c) == "where" and any(k.arg == "index" for k in c.keywords)]
+    tl = [x for x in walk_shallow(gn) if isinstance(x, ast.For) and "groupby(3, 'count')" in unparse(x.iter) and not unparse(x.iter).startswith("self.")]
+    ok = not by_value and len(tl) == 1
+    if ok:
+        lp = tl[0]
+        TBL = unparse(lp.iter.func.value)
+        LEN = unparse(lp.target.elts[1]) if isinstance(lp.target, ast.Tuple) and len(lp.target.elts) == 2 else None
+        ext = [c for c in walk_shallow(lp) if isinstance(c, ast.Call) and call_tail(c) == "extend" and len(c.args) == 1 and isinstance(c.args[0], ast.Call) and call_name(c.args[0]) == "range"]
+        adv = [x for x in walk_shallow(lp) if isinstance(x, ast.AugAssign) and isinstance(x.op, ast.Add) and unparse(x.value) == LEN]
+        ok = len(ext) == 1 and len(adv) == 1 and len(ext[0].args[0].args) == 2
+        if ok:
+            LOC, KEEP = unparse(adv[0].target), unparse(ext[0].func.value)
+            lo, hi = ext[0].args[0].args
+            ok = unparse(lo) == LOC and canon(unparse(hi)) in (canon(f"{LOC} + min({LEN}, shorten_to)"), canon(f"{LOC} + min(shorten_to, {LEN})"), canon(f"min({LEN}, shorten_to) + {LOC}")) \
+                and ext[0].lineno < adv[0].lineno and [unparse(v) for v in assigned_value(gn, LOC)][:1] in (["0"], []) 
+            init = [x for x in walk_shallow(gn) if isinstance(x, ast.Assign) and x.lineno < lp.lineno and LOC in unparse(x.targets[0]) and KEEP in unparse(x.targets[0])]
+            ok = ok and (bool(init) and unparse(init[-1].value) in ("(0, [])", "([], 0)") or ([unparse(v) for v in assigned_value(gn, LOC)] == ["0"] and [unparse(v) for v in assigned_value(gn, KEEP)] == ["[]"]))
+            rebuilt = [x for x in walk_shallow(gn) if isinstance(x, ast.Assign) and x.lineno > lp.lineno and canon(unparse(x.value)) == canon(f"Table(View({TBL}._data, {KEEP}), {TBL}.columns, {TBL}.indexes)") and unparse(x.targets[0]) == TBL]
+            ok = ok and len(rebuilt) == 1
+    ctx.ob("C18.R3", RES, "Result._global_n", tl[0] if tl else (by_value[0] if by_value else gn), "truncation keeps the first n rows of every evaluation (positions counted over the narrowed table's own (env, learner, evaluator) "
+           "groups), never the rows whose index VALUE is <= n", ok, stmt="truncate by position")
     st = assigned_value(gn, "shorten_to")
     ctx.ob("C18.R3", RES, "Result._global_n", gn, "n='min' truncates to the shortest evaluation, a number truncates to that number",
            len(st) == 1 and unparse(st[0]) == "min(env_lengths) if n == 'min' and env_lengths else n", stmt="shorten_to")
@@ -307,8 +332,8 @@ def r3_length(ctx):
     idx = [x for x in walk_shallow(tres) if isinstance(x, ast.Assign) and isinstance(x.targets[0], ast.Subscript) and const_str(x.targets[0].slice) == "index"]
     okx = len(idx) == 1 and isinstance(idx[0].value, ast.Call) and call_name(idx[0].value) == "range" and len(idx[0].value.args) == 2 and unparse(idx[0].value.args[0]) == "1" \
         and isinstance(idx[0].value.args[1], ast.BinOp) and unparse(idx[0].value.args[1].right) == "1"
-    ctx.ob("C18.R3", RES, "TransactionResult.filter", idx[0] if idx else tres, "the index written by the reader starts at 1 (what `index <= n` assumes)", okx)
-    grp = [x for x in walk_shallow(gn) if isinstance(x, ast.For) and "groupby(" in unparse(x.iter)]
+    ctx.ob("C18.R3", RES, "TransactionResult.filter", idx[0] if idx else tres, "the index written by the reader starts at 1", okx)
+    grp = [x for x in walk_shallow(gn) if isinstance(x, ast.For) and "groupby(" in unparse(x.iter) and unparse(x.iter).startswith("self.")]
     ok = len(grp) == 2 and all(unparse(g.iter) == "self.interactions.groupby(3, 'count')" for g in grp)
     ctx.ob("C18.R3", RES, "Result._global_n", grp[0] if grp else gn, "lengths are counted per (environment, learner, evaluator) triple", ok, stmt="groupby(3,'count')")
     rm = _fn(ctx, "Result._remove")
@@ -514,6 +539,8 @@ def r9_always_filtered(ctx, rule="C18.R9"):
 
 
 CONTROLS = [
+    ("from_logged_envs indexes its empty tables first", "coba/results/core.py", M.insert_before("Result.from_logged_envs", lambda st: isinstance(st, ast.FunctionDef), "int_table.index('environment_id', 'learner_id', 'evaluator_id', 'index')"), "C18.R13"),
+    ("run splitter tries the previous run's length first", "coba/results/core.py", M.replace_stmt("Table._sub_lohis", M.text_has("my_bisect_right"), "new_hi = lo + 1\nif col[new_hi - 1] != col[lo]: new_hi = my_bisect_right(col, col[lo], lo, hi)"), "C18.R12"),
     ("a single learner skips the finishing filter", RES, M.replace_expr("Result.raw_learners", "p", "p and len(self.learners) > 1", nth=0), "C18.R11"),
     ("indexed 'in' iterates a set as it comes", RES, M.replace_expr("Table._compare", "sorted(set(arg))", "arg if isinstance(arg, (set, frozenset)) else sorted(set(arg))"), "C18.R10"),
     ("where_best passes its None on", RES, M.delete_stmt("Result.filter_best", M.text_has("if p is None")), "C18.R9"),
@@ -535,6 +562,8 @@ CONTROLS = [
     ("swapped unpack", RES, M.replace_expr("Result._group_p", "(e_keep, l_keep, v_keep)", "(l_keep, e_keep, v_keep)"), "C18.R1"),
     ("keep larger groups", RES, M.replace_expr("Result._group_p", "len(group) > n_levels", "len(group) > n_levels + 1"), "C18.R2"),
     ("drop equal length", RES, M.replace_expr("Result._global_n", "env_len < n", "env_len <= n"), "C18.R3"),
-    ("truncate strictly", RES, M.replace_expr("Result._global_n", "{'<=': shorten_to}", "{'<': shorten_to}"), "C18.R3"),
+    ("truncate one row short", RES, M.replace_expr("Result._global_n", "min(length, shorten_to)", "min(length, shorten_to - 1)"), "C18.R3"),
+    ("truncate on the value of index again", RES, M.replace_stmt("Result._global_n", lambda st: isinstance(st, ast.Assign) and "Table(View(interactions._data, keep)" in ast.unparse(st), "interactions = interactions.where(index={'<=': shorten_to})"), "C18.R3"),
+    ("truncation positions never advance", RES, M.delete_stmt("Result._global_n", M.text_has("loc += length")), "C18.R3"),
     ("bisect learner first", RES, M.replace_expr("Result._remove", "my_bisect_left(env_ids, e, loc, n_interactions)", "my_bisect_left(lrn_ids, e, loc, n_interactions)"), "C18.R4"),
 ]
